@@ -376,6 +376,8 @@ def c06_cases(rng, tier):
              [(ADDR_C, [1], ("raw", [[]]))]]
     for c_ in rng.sample(tp, min(len(tp), 150 if tier == "quick" else 3000)):
         cases.extend(api_variants(rng, c_, 2, rng.choice(posts), k=1))
+    # (4c) VM programs whose parallel children share lazily initialised state
+    cases += V.pex_race_cases()
     # (5) the byte-level decoders
     c18, _ = gen_types.c18_cases(rng, tier)
     cases += [c for c in c18 if c.startswith(("decmut", "decpred"))]
@@ -452,6 +454,16 @@ def py_next_key(key):
             key[i] += 1
             return key
     return None
+
+
+def py_nth_key(key, i):
+    """the i-th key after `key` (None if the key space wraps first)"""
+    k = list(key)
+    for _ in range(i):
+        k = py_next_key(k)
+        if k is None:
+            return None
+    return k
 
 
 def py_key_range(lookup, key, n):
@@ -584,6 +596,26 @@ def c03_cases(rng, tier):
                         maddr=rng.choice([0, 0, 1, 257]))
         cases.append(c)
         oracles.append("o_expect " + expect_tok(e) + " " + c)
+    # long ranges (bulk-read territory) that cross a carry into a more significant key word, with mutated keys before the
+    # carry, right after it, at both ends of the range and outside it
+    for n in (63, 64, 65, 100):
+        for rk in ([0, I64_MAX - 39], [5, I64_MAX - 70], [I64_MAX - 20], [0, 0, I64_MAX - 2]):
+            declared = [(list(rk), [41]), (py_nth_key(rk, n - 1) or list(rk), [42, 43])]
+            mid = py_nth_key(rk, 45)
+            if mid:
+                declared.append((mid, []))
+                after = py_nth_key(rk, n + 3)
+                if after:
+                    declared.append((after, [44]))
+            seen_, ded = set(), []
+            for k_, v_ in declared:
+                if tuple(k_) not in seen_ and tuple(k_) != (7777,):
+                    seen_.add(tuple(k_))
+                    ded.append((k_, v_))
+            pre = {tuple(py_nth_key(rk, 44) or rk): [900], tuple(mid or rk): [901], tuple(py_nth_key(rk, 2) or rk): [902]}
+            c, e = c03_case(rng, rng.choice(["leaf", "chain"]), rk, n, ded, None, pre, collect_all=rng.random() < 0.5)
+            cases.append(c)
+            oracles.append("o_expect " + expect_tok(e) + " " + c)
     for _ in range(n_rand):
         shape = rng.choice(shapes)
         rk = [rng.choice([0, 1, 2, 3, I64_MAX, I64_MAX - 1]) for _ in range(rng.choice([0, 1, 1, 2]))]
@@ -684,8 +716,17 @@ def c04_set(rng, clash=None):
 
 
 def c04_cases(rng, tier):
-    from .gen_types import sols_tok as _st
+    from .gen_types import sols_tok as _st, addr_raw_cases
     cases, oracles = [], []
+    # the address of a set must not depend on the order of its solution addresses, also when these share leading bytes
+    cases += [c for c in addr_raw_cases(rng, tier) if c.startswith("addr_raw set")]
+    # two real solutions whose content addresses share their first 8 bytes (found by a 2^32 search), with a third one, in every order
+    z = bytes(32)
+    pair = [(z, z, [[4236359857541326005]], []), (z, z, [[4766575786782499924]], []), (bytes([3]) * 32, bytes([7]) * 32, [[3, 4]], [([3], [42])])]
+    for pm in itertools.permutations(range(3)):
+        cases.append("addr_set " + _st([pair[i] for i in pm]))
+    cases.append("addr_set " + _st(pair[:2]))
+    cases.append("addr_set " + _st(pair[1::-1]))
     n_sets = 60 if tier == "quick" else 1500
     kinds = [None] * 6 + ["dd", "dd_pred", "dc", "cd", "cc"]
     pre_sets = [[], [(ADDR_A, [1], [11]), (ADDR_A, [4], [44]), (ADDR_C, [2], [22]), (ADDR_A, [5], [55]), (ADDR_C, [6], [66])]]
@@ -940,6 +981,27 @@ def c01_cases(rng, tier):
             c, o = c01_graph_cases(rng, g, 4, rng.random() < 0.5, rng.choice([1, 1, 2, 3]))
             cases += c
             oracles += o
+    # several failing nodes in one level, the lower-numbered ones slower: the reported failing node must not depend on
+    # which of them finishes first (run on thread pools of 1 and 4 workers)
+    def spin_(k):
+        return [P(k), P(1), op("REP"), P(0), op("POP"), op("REPE")] if k > 0 else []
+    for width, slow in ((2, 9000), (3, 6000), (4, 12000), (4, 3000)):
+        for variant in range(2):
+            children = [[width] for _ in range(width)] + [[]] if variant == 0 else [[] for _ in range(width)]
+            programs = []
+            for v in range(width):
+                fails = v < 2 or rng.random() < 0.5
+                body = spin_(slow if v == 0 else slow // (4 * v)) + ([op("POP")] if fails else ([P(1000 + v)] if variant == 0 else p_sat()))
+                programs.append(body)
+            if variant == 0:
+                programs.append(p_report_stack(7777))
+            enc = encode_valid(children)
+            pred, pbytes = build_pred(enc, programs)
+            for ca in (False, True):
+                case = check_case("twopass", ca, [(ADDR_A, ADDR_B, [], [])], [(ADDR_A, ADDR_B, pred)], pbytes, [])
+                cases.append(case)
+                oracles.append("o_pool 2 1 4 2 " + case)
+                oracles.append("o_pool 2 1 4 2 " + api_variants(rng, case, 1, [], k=1)[0])
     # cyclic and malformed graphs: rejected, nothing evaluated (a data-output program at every node would otherwise show up)
     pc = prog_bytes(p_const(7))
     pr = prog_bytes(p_output_mutation([1], [2]))
@@ -1022,7 +1084,7 @@ def c02_cases(rng, tier):
     sizes = [1, 2, 5, 16] if tier == "quick" else list(range(1, 17))
     reps = 2 if tier == "quick" else 3
     pre = f"o_pool {len(sizes)} " + " ".join(map(str, sizes)) + f" {reps} "
-    cases = c02_check_cases(rng, tier) + c02_vm_cases(rng, tier)
+    cases = c02_check_cases(rng, tier) + c02_vm_cases(rng, tier) + V.pex_race_cases()
     # inputs of C01 / C03 / C10 as well
     c1, _ = c01_cases(rng, "quick")
     c3, _ = c03_cases(rng, "quick")
